@@ -59,6 +59,30 @@ def audits(st, only=None):
     return ["A %d %d" % (i + 1, st.maxkey + 2) for i in range(2) if not st.mf[i] and (only is None or i + 1 in only)]
 
 
+# fixed programs: self copy assignment / self swap / self move assignment in every container state
+# (placeholder head, placeholder head + chained tables, sized head, sized head + chained tables, after clear)
+SELF_PROGRAMS = [
+    "Y 1 1 0;A 1 3;S 1 1 0;A 1 3;E 1 1 1 0;Y 1 1 0;A 1 3;S 1 1 0;A 1 3",
+    "M 1 1 33 1;A 1 35;Y 1 1 0;A 1 35;S 1 1 0;A 1 35;E 1 40 2 0;Y 1 1 0;A 1 42",
+    "N 1 16;M 1 1 10 1;Y 1 1 0;A 1 12;M 1 11 6 2;Y 1 1 0;A 1 18;S 1 1 0;A 1 18",
+    "N 2 16;M 2 1 49 1;A 2 51;Y 2 2 0;A 2 51;S 2 2 0;A 2 51;Y 1 2 0;A 1 51;Y 1 1 0;A 1 51;A 2 51",
+    "N 1 16;M 1 1 17 1;C 1;Y 1 1 0;A 1 19;M 1 1 5 2;Y 1 1 0;A 1 19;C 1;S 1 1 0;A 1 19",
+    "C 1;Y 1 1 0;A 1 3;M 1 1 16 1;Y 1 1 0;A 1 18;R 1 64;Y 1 1 0;A 1 18;H 1 0;Y 1 1 0;A 1 18",
+    "N 1 32;M 1 1 20 1;V 1 1;C 1;A 1 22;M 1 1 3 1;A 1 22;V 2 2;D 2;A 2 22",
+]
+SELF_KINDS = ["set_int", "set_str", "map_int", "map_str", "set_u64"]
+
+
+def self_scripts(rng, quick=True):
+    out = []
+    for j, prog in enumerate(SELF_PROGRAMS):
+        for kind in (SELF_KINDS if not quick else [SELF_KINDS[j % len(SELF_KINDS)], SELF_KINDS[(j + 2) % len(SELF_KINDS)]]):
+            out.append(("f%d%s" % (j, kind.replace("_", "")), kind, rng.choice([0, 1, 3]), prog.split(";")))
+    for j, kind in enumerate(sorted(MOVE_ONLY)):      # move-only kinds: self swap / self move only
+        out.append(("fm%d" % j, kind, 0, "M 1 1 33 1;S 1 1 0;A 1 35;N 2 16;M 2 1 20 2;S 2 2 0;A 2 35;V 2 2;C 2;A 2 35".split(";")))
+    return out
+
+
 def gen_recycle(rng):
     """exact fill / overfill by one of a table, clear, look for ghosts, refill (re-use of a cleared table, the state the
     documentation recommends: "repeatedly use one table")"""
@@ -88,8 +112,14 @@ def gen_recycle(rng):
         lo = rng.choice([1, 1, 5, 20])
         emit("M %d %d %d %d" % (c, lo, n, rng.randint(1, 3)))
         ops.extend(audits(st, {c}))
+        if kind not in MOVE_ONLY and rng.random() < 0.5:
+            emit("Y %d %d 0" % (c, c))
+            ops.extend(audits(st, {c}))
         emit("C %d" % c)
         ops.extend(audits(st, {c}))
+        if kind not in MOVE_ONLY and rng.random() < 0.5:
+            emit("Y %d %d 0" % (c, c))
+            ops.extend(audits(st, {c}))
         if rng.random() < 0.5:
             emit("E %d %d %d %d" % (c, rng.randint(1, st.maxkey), rng.randint(1, 3), rng.randint(0, 3)))
             emit("F %d %d" % (c, rng.randint(1, st.maxkey)))
@@ -147,6 +177,10 @@ def gen_random(rng, max_ops=14):
             emit("R %d %d" % (c, rng.choice(BOUNDARY_CAPS + [200, 300])))
         elif r < 0.80:
             emit("H %d %d" % (c, rng.choice(BOUNDARY_CAPS + [200, 300])))
+        elif r < 0.83:
+            # self assignment / self swap: contents must be unchanged (self move: unspecified afterwards)
+            emit(rng.choice((["Y %d %d 0" % (c, c)] * 3 if copyable else []) + ["S %d %d 0" % (c, c), "V %d %d" % (c, c)]))
+            ops.extend(audits(st, {c}))
         elif r < 0.86:
             if copyable:
                 emit("Y %d %d %d" % (o, c, rng.randint(0, 1)))
@@ -184,7 +218,7 @@ def from_tlc(hist, kind, kmap, rng, audit_every=1.0):
         if p[0] == "E":
             tok += " %d" % rng.randint(0, 3)
         elif p[0] in ("Y", "S", "I"):
-            tok += " %d" % rng.randint(0, 1)
+            tok += " %d" % (0 if len(p) > 2 and p[1] == p[2] else rng.randint(0, 1))
         ops.append(tok)
         st.apply(tok)
         if p[0] not in ("F", "I", "Z") and rng.random() < audit_every:
